@@ -402,7 +402,7 @@ func lemma_C05_objectRoundtrip_2(bits uint64, flag bool) bool {
 
 // a repeated name in a decodable byte string: Size() afterwards is what was consumed, and re-marshalling reproduces it
 //@ bounded lemma_C05_objectRepeatedKey 4
-//@ lemma C05.object.size-consumed.repeated-key
+//@ lemma C05.object.size-consumed.repeated-key C06.object.repeated-key.bounded
 func lemma_C05_objectRepeatedKey(k byte) bool {
 	b := []byte{3, 0, 1, k, 5, 0, 1, k, 6, 0, 0, 9}
 	q := NewObject()
